@@ -58,7 +58,7 @@ def _alarm(_sig, _frm):
 def identify(data, limit_s=60):
     """Returns (result, exception, tell_after, content_after, seconds)."""
     from TotalDepth.util import bin_file_type
-    fobj = io.BytesIO(data)
+    fobj = engine.handle(data)      # positioned wherever an earlier reader left it: start, end, middle, byte 1
     t0 = time.time()
     old = None
     try:
